@@ -11,7 +11,7 @@ namespace Octo.Loops
     the top -/
 theorem stepSite_safe (s : Site) (c : Choice) (h : s.violates = false ∨ c = .pass) :
     stepSite s c = .next ∨ stepSite s c = .out .backAtTop := by
-  rcases s with ⟨line, kind, op, text, inSpawn, perFlow, handled, service, fallible, selectHead, cause⟩
+  rcases s with ⟨line, kind, op, text, inSpawn, inPushed, perFlow, handled, service, fallible, selectHead, cause⟩
   rcases h with h | h
   · cases kind <;> cases service <;> cases perFlow <;> cases handled <;> cases fallible <;> cases c <;>
       simp_all [stepSite, Site.violates]
@@ -115,7 +115,7 @@ theorem stepSiteAssoc_not_ended (s : Site) (c : Choice) (h : s.endsOnDatagram = 
     (hj : (s.kind = .break_ ∨ s.kind = .return_) →
       (s.cause = .svcClosed ∨ s.cause = .svcError ∨ s.cause = .localState) → c ≠ .take) :
     stepSiteAssoc s c ≠ .out .ended := by
-  rcases s with ⟨line, kind, op, text, inSpawn, perFlow, handled, service, fallible, selectHead, cause⟩
+  rcases s with ⟨line, kind, op, text, inSpawn, inPushed, perFlow, handled, service, fallible, selectHead, cause⟩
   cases kind <;> cases cause <;> cases service <;> cases perFlow <;> cases handled <;> cases c <;>
     simp_all [stepSiteAssoc, Site.endsOnDatagram]
 
@@ -180,7 +180,7 @@ theorem stepSiteAssoc_continue (s : Site) (h : s.kind = .continue_) : stepSiteAs
 
 private def site (line : Nat) (kind : SiteKind) (op text : String) (perFlow handled service fallible : Bool)
     (cause : Cause := .none) : Site :=
-  { line, kind, op, text, inSpawn := false, perFlow, handled, service, fallible, selectHead := false, cause }
+  { line, kind, op, text, inSpawn := false, inPushedFuture := false, perFlow, handled, service, fallible, selectHead := false, cause }
 
 /-- the TLS handshake awaited in the accept loop itself (before 'tls handshake in the connection's own task') -/
 def oldTlsInline : Loop :=
@@ -244,5 +244,31 @@ theorem oldReplayBreak_not_assocOk : oldReplayBreak.assocOk = false := by decide
 /-- the oracle takes only the jump caused by flow data (it is datagram-level), and the association is over -/
 theorem oldReplayBreak_ended :
     iterationAssoc oldReplayBreak (fun _ => true) (fun k => if k = 1 then .take else .pass) = .ended := by decide
+
+/-- the client's `transfer_udp` before 'opens and writes each udp binding in a future of its own' (9c60c4d): `new_out(..).await`,
+    `new_binding(..).await` and `value.sink.send(..).await` in the body of the datagram arm of the loop that serves every
+    binding (the site list that `translate_loops.py` extracted from 1fcb424, `perFlow` awaits at loop level) -/
+def oldClientBindingInline : Loop :=
+  { name := "old_client_binding_inline", file := "template.rs", fn := "transfer_udp", role := .service, line := 0,
+    sites := [
+      { site 209 .await_ "tick" "cleanup_timer.tick()" false true true false with selectHead := true },
+      { site 213 .await_ "recv" "client_local_rx.recv()" false true true false with selectHead := true },
+      site 223 .await_ "send" "client_local.send(item)" true true true true,
+      { site 226 .await_ "next" "local_client.next()" false true true true with selectHead := true },
+      site 233 .continue_ "continue" "continue" true false false false .svcError,
+      site 242 .await_ "new_out" "new_out(&target, &context)" true true false false,
+      site 243 .await_ "new_binding" "new_binding(server_addr, client_local_tx.clone(), ..)" true true false false,
+      site 256 .await_ "new_out" "new_out(&target, &context)" true true false false,
+      site 257 .await_ "new_binding" "new_binding(server_addr, client_local_tx.clone(), ..)" true true false false,
+      site 270 .await_ "send" "value.sink.send(to_outbound_send((content, target), server_addr))" true true false false,
+      site 280 .break_ "break" "break" false false false false .svcClosed ] }
+
+theorem oldClientBindingInline_not_isolated : oldClientBindingInline.isolated = false := by decide
+theorem oldClientBindingInline_residual :
+    (nonIsolatedSites oldClientBindingInline).map (fun s => (s.kind, s.op)) =
+      [(.await_, "new_out"), (.await_, "new_binding"), (.await_, "new_out"), (.await_, "new_binding"), (.await_, "send")] := by decide
+/-- a binding whose connection to the server stalls in its handshake: the loop serves no other binding meanwhile -/
+theorem oldClientBindingInline_stuck :
+    iteration oldClientBindingInline (fun _ => true) (fun k => if k = 5 then .stall else .pass) = .stuck := by decide
 
 end Octo.Loops
